@@ -113,6 +113,12 @@ def gen_case(rng):
     p_fail = rng.choice([0.0, 0.0, 0.08, 0.2, 0.5])
     nested_ok = helper in GATHER_MODES or helper == 'online'
     tasks = [gen_body(rng, p_fail, 0, nested_ok) for _ in range(n)]
+    if _is_ret(helper) and rng.random() < 0.35:
+        # a CancelledError born inside a partial function (it awaited something a third party cancelled): for the
+        # return-exceptions flavours it is one more exception to return in place; the caller was not cancelled
+        for b in tasks:
+            if 'nested' not in b and rng.random() < 0.4:
+                b['fail'] = rng.choice(['self-cancel-pre', 'self-cancel-post'])
     case = {'P': P, 'helper': helper, 'tasks': tasks, 'cancel_at': None, 'second': rng.random() < 0.4}
     if helper == 'online':
         case['online'] = {
@@ -165,6 +171,7 @@ class Run:
         self.working = 0
         self.max_working = 0
         self.exc_exits = 0  # helper entry points left through an exception so far
+        self.self_cancels = 0
         self.guarded = []  # [start_seq, left_through_exception] of every helper entry point (gather call, pool.wait, __aexit__)
         self.bound_viol = None
         self.recs = []
@@ -239,6 +246,9 @@ class Run:
                     await asyncio.sleep(spec['pre'])
                 if spec['fail'] == 'pre':
                     raise Boom(path)
+                if spec['fail'] == 'self-cancel-pre':
+                    self.self_cancels += 1
+                    raise asyncio.CancelledError('born inside the partial function')
                 nested = spec.get('nested')
                 if nested is not None:
                     nrec = self.new_rec(path, nested['mode'], nested['tasks'])
@@ -268,6 +278,9 @@ class Run:
                     await asyncio.sleep(spec['post'])
                 if spec['fail'] == 'post':
                     raise Boom(path)
+                if spec['fail'] == 'self-cancel-post':
+                    self.self_cancels += 1
+                    raise asyncio.CancelledError('born inside the partial function')
                 return 'r' + repr(path)
             except asyncio.CancelledError:
                 self.ev('cancel-seen', path)
@@ -759,6 +772,7 @@ def run(ctx):
             )
             ctx.count('bodies_entered', n_entered)
             ctx.count('events', len(r.events))
+            ctx.count('cancelled_errors_born_inside_partial_functions', r.self_cancels)
             if r.max_working == r.P:
                 ctx.count('cases_max_working_eq_P')
             if r.cancel_delivered:
